@@ -1,12 +1,14 @@
 #!/bin/bash
-# Apply every stored seeded change to /repo in turn, run all quick checks, restore /repo. Prints a matrix line per seed.
+# Apply every stored seeded change to /repo in turn, run all quick checks once, restore /repo. Prints a matrix line per seed.
+# NOTE: modifies /repo's working tree while it runs (restored after each seed); do not run other checks concurrently.
 cd /verif
 for d in seeded/*/; do
   id=$(basename $d)
   git -C /repo apply /verif/seeded/$id/patch.diff || { echo "$id: patch does not apply"; continue; }
-  fired=$(./check all 2>&1 | grep -E "new=[1-9]|BUILD" | awk '{print $1}' | tr '\n' ' ')
-  rules=$(./check all 2>&1 | grep -E "^\s+\[(violation|anchor-missing|undecided)\]" | awk '{print $2}' | sort -u | tr '\n' ' ')
+  out=$(./check all 2>&1)
   git -C /repo checkout -- .
+  fired=$(echo "$out" | grep -E "new=[1-9]|BUILD" | awk '{print $1}' | tr '\n' ' ')
+  rules=$(echo "$out" | grep -E "^\s+\[(violation|anchor-missing|undecided)\]" | awk '{print $2}' | sort -u | tr '\n' ' ')
   echo "$id -> fired: ${fired:-NONE} | rules: $rules"
 done
 git -C /repo status --short | head -3
